@@ -589,22 +589,29 @@ def clearV (σ : State) (l : Loc) : Except Err State := do
   | some id => let (σ1, _) ← resizeAt false σ l id 0; pure σ1     -- never grows
   | none => pure σ
 
-/-- the body of the loop of `extend`: `if (x.ok()) (*_o)[k] = x;` -/
-def extendLoop (guard : Bool) : State → Loc → List (Bytes × V) → Except Err State
-  | σ, _, [] => .ok σ
-  | σ, l, (k, x) :: rest =>
-    if x = V.none then extendLoop guard σ l rest
-    else
-      match readLoc σ l with
-      | .error e => .error e
-      | .ok (.obj id) =>
-        match indexKey guard σ l id k with
-        | .error e => .error e
-        | .ok (σ1, t) =>
-          match assignV σ1 t x with
+/-- the loop of `extend` over the held Dic (block `sid`): `foreach2(k, x, src) if (x.ok()) (*_o)[k] = x;` — the
+enumerator reads element `i` of the Dic's array at every step; `n` bounds the number of steps (the initial length) -/
+def extendLoop (guard : Bool) (sid : Nat) : Nat → State → Loc → Nat → Except Err State
+  | 0, σ, _, _ => .ok σ
+  | n + 1, σ, l, i =>
+    match getB σ.heap sid with
+    | .error e => .error e
+    | .ok sb =>
+      match sb.items[i]? with
+      | none => .ok σ                                  -- `i < d->length()` no longer holds
+      | some (k, x) =>
+        if x = V.none then extendLoop guard sid n σ l (i + 1)
+        else
+          match readLoc σ l with
           | .error e => .error e
-          | .ok σ2 => extendLoop guard σ2 l rest
-      | .ok _ => .error .badarg
+          | .ok (.obj id) =>
+            match indexKey guard σ l id k with
+            | .error e => .error e
+            | .ok (σ1, t) =>
+              match assignV σ1 t x with
+              | .error e => .error e
+              | .ok σ2 => extendLoop guard sid n σ2 l (i + 1)
+          | .ok _ => .error .badarg
 
 /-- `Var& extend(const Var& v)`: NONE → becomes an empty object; if both are objects, every defined property of
 `v` is assigned into this one (commits 63d8c00, 02a4aa4: `v` must be an object; its Dic is held for the loop) -/
@@ -620,7 +627,7 @@ def extendV (guard : Bool) (σ : State) (l : Loc) (src : V) : Except Err State :
   | .obj _, .obj sid =>
     let h1 ← copyV σ0.heap src                       -- Dic<Var> src = *v._o;
     let sb ← getB h1 sid
-    let σ1 ← extendLoop guard { σ0 with heap := h1 } l sb.items
+    let σ1 ← extendLoop guard sid sb.items.length { σ0 with heap := h1 } l 0
     let h2 ← drop σ1.heap [src]                      -- ~Dic
     pure { σ1 with heap := h2 }
   | _, _ => pure σ0
